@@ -38,6 +38,10 @@ fn interior_violation(cones: &[ConeT], e: &IterEvent, prev: Option<&IterEvent>) 
         // components are representable numbers: a block that has shrunk below 1e-150 (reached only by runs that
         // are never allowed to stop, after 80+ iterations) is underflow noise to the implementation's own
         // quadratic forms, and "up to rounding" has no relative meaning there
+        // a block that is exactly zero sits at the apex: not interior, and no rounding argument applies
+        if s.iter().all(|v| *v == 0.0) || z.iter().all(|v| *v == 0.0) {
+            return Some(json!({"what": "block exactly at the apex of its cone", "cone": ci, "kind": vkit::cones::cone_name(c), "s": s, "z": z, "iteration": e.iterations}));
+        }
         let blk = s.iter().chain(z.iter()).fold(0.0f64, |m, v| m.max(v.abs()));
         let blk_min = s.iter().fold(0.0f64, |m, v| m.max(v.abs())).min(z.iter().fold(0.0f64, |m, v| m.max(v.abs())));
         if !(blk_min >= 1e-150 && blk <= 1e150) {
@@ -359,7 +363,7 @@ pub fn run(ctx: &mut Ctx) {
         }
         ctx.begin(wl, case);
         let mut rng = Rng::for_case(ctx.seed, "C07/to_the_roundoff_floor", case);
-        let mut o = GenOpts { kinds: match rng.usize(0, 3) { 0 => vec!["NN"], 1 => vec!["NN", "Zero"], _ => vec!["NN", "SOC", "SOC", "Zero"] }, ..Default::default() };
+        let mut o = GenOpts { kinds: match rng.usize(0, 3) { 0 => vec!["NN"], 1 => vec!["NN", "Zero"], 2 => vec!["NN", "SOC", "SOC", "Zero"], _ => vec!["SOC", "Zero", "SOC"] }, ..Default::default() };
         o.nmax = *rng.choose(&[3, 6, 10]);
         o.mmax = *rng.choose(&[7, 13, 24]);
         o.allow_empty_cones = false;
@@ -369,6 +373,15 @@ pub fn run(ctx: &mut Ctx) {
         }
         if rng.bool(0.5) && axis_only_second_order_cones(&mut p, &mut rng) {
             ctx.bump("floor_instances_with_axis_only_second_order_cones");
+        }
+        // pure feasibility problems (P = 0, q = 0): the least-squares start has z EXACTLY zero, i.e. every dual
+        // block starts at the apex of its cone and only the shift into the interior moves it
+        if rng.bool(0.12) {
+            p.P = clarabel::algebra::CscMatrix::zeros((p.n(), p.n()));
+            for v in p.q.iter_mut() {
+                *v = 0.0;
+            }
+            ctx.bump("floor_feasibility_problems_(P=0,q=0)");
         }
         let mut st = if rng.bool(0.5) { clarabel::solver::DefaultSettings::<f64>::default() } else { gen::random_settings(&mut rng, true) };
         st.verbose = false;
